@@ -125,5 +125,334 @@ theorem chainArea_eq_hvSpec {F : List P2} (hF : IsFront F) {c : List Nat} (hinc 
 /-- non-vacuity of L3 -/
 example : IsFront [⟨-5, -1, 0⟩, ⟨-3, -2, 1⟩, ⟨-1, -4, 2⟩] ∧ chainArea [⟨-5, -1, 0⟩, ⟨-3, -2, 1⟩, ⟨-1, -4, 2⟩] [0, 2] = 8 := by
   refine ⟨⟨by decide, by decide⟩, by decide⟩
+/-! ### one round of the dynamic programme -/
+
+/-- the value of the linear function of point `m` (built from the table `h`) at `x = f1_i` -/
+def fval (F : List P2) (h : List Int) (m i : Nat) : Int := fy F m * (fx F m - fx F i) + h.getD m 0
+
+/-- what one call of `upperEnvelope` has to deliver -/
+structure RoundSpec (F : List P2) (h : List Int) (res : List (Int × Nat)) : Prop where
+  len : res.length = F.length
+  ub : ∀ i m, m ≤ i → i < F.length → fval F h m i ≤ (res.getD i (0, 0)).1
+  ach : ∀ i, i < F.length → (res.getD i (0, 0)).2 ≤ i ∧ fval F h (res.getD i (0, 0)).2 i = (res.getD i (0, 0)).1
+
+theorem envInput_eq (F : List P2) (h : List Int) (hlen : h.length = F.length) :
+    ((F.zip h).zipIdx.map fun ((p, hi), i) => (({ a := -p.f2, b := p.f1 * p.f2 + hi, idx := i } : LF), p.f1))
+      = (List.range F.length).map fun i =>
+          (({ a := - fy F i, b := fx F i * fy F i + h.getD i 0, idx := i } : LF), fx F i) := by
+  apply List.ext_getElem
+  · simp [hlen]
+  · intro i h1 h2
+    have hi : i < F.length := by simpa using h2
+    simp [fx, fy, List.getD_eq_getElem?_getD, List.getElem?_eq_getElem hi,
+      List.getElem?_eq_getElem (by omega : i < h.length)]
+
+theorem upperEnvelope_roundSpec {F : List P2} (hF : IsFront F) {h : List Int} (hlen : h.length = F.length) :
+    RoundSpec F h (upperEnvelope F h) := by
+  unfold upperEnvelope
+  simp only
+  rw [envInput_eq F h hlen]
+  generalize hfs : ((List.range F.length).map fun i =>
+    (({ a := - fy F i, b := fx F i * fy F i + h.getD i 0, idx := i } : LF), fx F i)) = fs
+  have hget : ∀ i, i < F.length →
+      fs[i]? = some (({ a := - fy F i, b := fx F i * fy F i + h.getD i 0, idx := i } : LF), fx F i) := by
+    intro i hi; subst hfs; simp [hi]
+  have hget' : ∀ (m : Nat) (e : LF × Int), fs[m]? = some e → m < F.length := by
+    intro m e he
+    have := (List.getElem?_eq_some_iff.mp he).1
+    subst hfs; simpa using this
+  have hsorted : fs.Pairwise (fun u v => u.2 ≤ v.2 ∧ u.1.a < v.1.a) := by
+    subst hfs
+    rw [List.pairwise_map]
+    refine List.Pairwise.imp_of_mem ?_ List.pairwise_lt_range
+    intro a b _ hb hab
+    have := hF.lt hab (List.mem_range.mp hb)
+    simp only
+    omega
+  have hok := envGo_ok_nil fs hsorted
+  obtain ⟨hl, hi⟩ := EnvOK.index fs [] _ hok
+  have hfl : fs.length = F.length := by subst hfs; simp
+  have hout : ∀ i, i < F.length → (envGo [] fs)[i]? = some ((envGo [] fs).getD i (0, 0)) := by
+    intro i hi
+    rw [List.getD_eq_getElem?_getD, List.getElem?_eq_getElem (by omega)]; rfl
+  have hev : ∀ m i, ({ a := - fy F m, b := fx F m * fy F m + h.getD m 0, idx := m } : LF).eval (fx F i)
+      = fval F h m i := by
+    intro m i; simp only [LF.eval, fval]; ring
+  refine ⟨by omega, ?_, ?_⟩
+  · intro i m hmi hi'
+    have := (hi i _ _ (hget i hi') (hout i hi')).1 _ (Or.inr ⟨m, _, hmi, hget m (by omega), rfl⟩)
+    simpa only [hev] using this
+  · intro i hi'
+    obtain ⟨g, hg, hgi, hgv⟩ := (hi i _ _ (hget i hi') (hout i hi')).2
+    rcases hg with hg | ⟨m, e, hm, he, rfl⟩
+    · simp at hg
+    · have hm' := hget' m e he
+      rw [hget m hm'] at he
+      simp only [Option.some.injEq] at he
+      subst he
+      simp only at hgi hgv
+      rw [hev] at hgv
+      rw [← hgi]
+      exact ⟨hm, hgv⟩
+
+/-! ### L2: the dynamic programme -/
+
+theorem backtrack_length (cur : Nat) : ∀ ch : List (List Nat), (backtrack cur ch).length = ch.length + 1 := by
+  intro ch
+  induction ch generalizing cur with
+  | nil => simp [backtrack]
+  | cons c cs ih => simp [backtrack, ih]
+
+/-- invariant after `j` rounds: `h` bounds every chain of at most `j` points from above, and back-tracking through
+the `chosen` tables yields a chain of `j + 1` indices realising `h` -/
+structure DPInv (F : List P2) (j : Nat) (h : List Int) (ch : List (List Nat)) : Prop where
+  hlen : h.length = F.length
+  chlen : ch.length = j
+  ub : ∀ i, i < F.length → ∀ c : List Nat, c.length ≤ j → c.Pairwise (fun a b => b ≤ a) → (∀ m ∈ c, m ≤ i) →
+    areaL F c (fx F i) ≤ h.getD i 0
+  bt : ∀ i, i < F.length → ∀ X, areaL F (backtrack i ch) X = (- fy F i) * (X - fx F i) + h.getD i 0
+  btc : ∀ i, i < F.length → (backtrack i ch).Pairwise (fun a b => b ≤ a) ∧ ∀ m ∈ backtrack i ch, m ≤ i
+
+theorem dpInv_init (F : List P2) : DPInv F 0 (F.map fun _ => 0) [] := by
+  refine ⟨by simp, rfl, ?_, ?_, ?_⟩
+  · intro i hi c hc _ _
+    have : c = [] := List.length_eq_zero_iff.mp (by omega)
+    subst this
+    simp [areaL, List.getD_eq_getElem?_getD, hi]
+  · intro i hi X
+    simp [backtrack, areaL, List.getD_eq_getElem?_getD, hi]
+  · intro i hi
+    simp [backtrack]
+
+theorem getD_map_fst (res : List (Int × Nat)) (i : Nat) : (res.map (·.1)).getD i 0 = (res.getD i (0, 0)).1 := by
+  simp only [List.getD_eq_getElem?_getD, List.getElem?_map]
+  cases res[i]? <;> rfl
+
+theorem getD_map_snd (res : List (Int × Nat)) (i : Nat) : (res.map (·.2)).getD i 0 = (res.getD i (0, 0)).2 := by
+  simp only [List.getD_eq_getElem?_getD, List.getElem?_map]
+  cases res[i]? <;> rfl
+
+theorem dpInv_step {F : List P2} {j : Nat} {h : List Int} {ch : List (List Nat)} (inv : DPInv F j h ch)
+    {res : List (Int × Nat)} (rs : RoundSpec F h res) :
+    DPInv F (j + 1) (res.map (·.1)) (res.map (·.2) :: ch) := by
+  have hnn : ∀ i, i < F.length → 0 ≤ h.getD i 0 := by
+    intro i hi
+    have := inv.ub i hi [] (by simp) (by simp) (by simp)
+    simpa [areaL] using this
+  refine ⟨by simp [rs.len], by simp [inv.chlen], ?_, ?_, ?_⟩
+  · intro i hi c hc hpw hle
+    rw [getD_map_fst]
+    match c, hc, hpw, hle with
+    | [], _, _, _ =>
+      have := rs.ub i i (Nat.le_refl _) hi
+      have h0 := hnn i hi
+      simp only [fval, Int.sub_self, Int.mul_zero, Int.zero_add] at this
+      simp only [areaL]
+      omega
+    | m :: rest, hc, hpw, hle =>
+      have hpw' := List.pairwise_cons.mp hpw
+      have hmi : m ≤ i := hle m (by simp)
+      have h1 := inv.ub m (by omega) rest (by simpa using hc) hpw'.2 hpw'.1
+      have h2 := rs.ub i m hmi hi
+      simp only [areaL]
+      simp only [fval] at h2
+      have e : (- fy F m) * (fx F i - fx F m) = fy F m * (fx F m - fx F i) := by ring
+      omega
+  · intro i hi X
+    have ⟨hci, hcv⟩ := rs.ach i hi
+    rw [getD_map_fst, backtrack, getD_map_snd, areaL, inv.bt _ (by omega), ← hcv, fval]
+    ring
+  · intro i hi
+    have ⟨hci, _⟩ := rs.ach i hi
+    rw [backtrack, getD_map_snd]
+    have ⟨h1, h2⟩ := inv.btc (res.getD i (0, 0)).2 (by omega)
+    refine ⟨List.pairwise_cons.mpr ⟨fun m hm => ?_, h1⟩, ?_⟩
+    · have := h2 m hm; omega
+    · intro m hm
+      rcases List.mem_cons.mp hm with rfl | hm
+      · exact Nat.le_refl _
+      · have := h2 m hm; omega
+
+theorem dpRounds_inv {F : List P2} (hF : IsFront F) : ∀ (j j0 : Nat) (h : List Int) (ch : List (List Nat)),
+    DPInv F j0 h ch → DPInv F (j0 + j) (dpRounds F j h ch).1 (dpRounds F j h ch).2
+  | 0, _, _, _, inv => by simpa [dpRounds] using inv
+  | j + 1, j0, h, ch, inv => by
+    rw [dpRounds]
+    have := dpRounds_inv hF j (j0 + 1) _ _ (dpInv_step inv (upperEnvelope_roundSpec hF inv.hlen))
+    simpa [Nat.add_assoc, Nat.add_comm 1 j] using this
+/-! ### the choice of the last point -/
+
+/-- the value of the best chain of at most `j + 1` points ending in `i` (`h` the table after `j` rounds) -/
+def dpVal (F : List P2) (h : List Int) (i : Nat) : Int := fx F i * fy F i + h.getD i 0
+
+theorem argmax_fold (val : Nat → Int) : ∀ t : Nat, (∀ i, i < t → 0 ≤ val i) →
+    let st := (List.range t).foldl (fun (st : Int × Nat) i => if val i > st.1 then (val i, i) else st) ((-1 : Int), 0)
+    (∀ i, i < t → val i ≤ st.1) ∧ ((t = 0 ∧ st = (-1, 0)) ∨ (st.2 < t ∧ st.1 = val st.2))
+  | 0, _ => by simp
+  | t + 1, hnn => by
+    have ih := argmax_fold val t (fun i hi => hnn i (by omega))
+    simp only [List.range_succ, List.foldl_append, List.foldl_cons, List.foldl_nil] at ih ⊢
+    generalize (List.range t).foldl (fun (st : Int × Nat) i => if val i > st.1 then (val i, i) else st)
+      ((-1 : Int), 0) = st at ih ⊢
+    obtain ⟨h1, h2⟩ := ih
+    have h0 := hnn t (by omega)
+    split
+    · rename_i hgt
+      refine ⟨?_, Or.inr ⟨by simp, rfl⟩⟩
+      intro i hi
+      rcases Nat.lt_succ_iff_lt_or_eq.mp hi with hi | rfl
+      · have := h1 i hi; simp only; omega
+      · exact Int.le_refl _
+    · rename_i hgt
+      rcases h2 with ⟨rfl, rfl⟩ | ⟨h2, h3⟩
+      · exact absurd (by simp only; omega) hgt
+      · refine ⟨?_, Or.inr ⟨by omega, h3⟩⟩
+        intro i hi
+        rcases Nat.lt_succ_iff_lt_or_eq.mp hi with hi | rfl
+        · exact h1 i hi
+        · omega
+
+theorem lastIndex_spec (F : List P2) (h : List Int) (hlen : h.length = F.length) (hn : 1 ≤ F.length)
+    (hnn : ∀ i, i < F.length → 0 ≤ dpVal F h i) :
+    lastIndex F h < F.length ∧ ∀ i, i < F.length → dpVal F h i ≤ dpVal F h (lastIndex F h) := by
+  have hz : (F.zip h).zipIdx = (List.range F.length).map fun i => ((F.getD i ⟨0, 0, 0⟩, h.getD i 0), i) := by
+    apply List.ext_getElem
+    · simp [hlen]
+    · intro i h1 h2
+      have hi : i < F.length := by simpa using h2
+      simp [List.getD_eq_getElem?_getD, List.getElem?_eq_getElem hi,
+        List.getElem?_eq_getElem (by omega : i < h.length)]
+  have := argmax_fold (dpVal F h) F.length hnn
+  unfold lastIndex
+  rw [hz, List.foldl_map]
+  simp only at this
+  obtain ⟨h1, h2⟩ := this
+  rcases h2 with ⟨h2, _⟩ | ⟨h2, h3⟩
+  · omega
+  · refine ⟨h2, ?_⟩
+    intro i hi
+    have := h1 i hi
+    rw [h3] at this
+    exact this
+
+/-! ### L2: value of the dynamic programme -/
+
+theorem dp_final {F : List P2} (hF : IsFront F) {j : Nat} {h : List Int} {ch : List (List Nat)}
+    (inv : DPInv F j h ch) (hn : 1 ≤ F.length) :
+    lastIndex F h < F.length ∧
+    (∀ i, i < F.length → dpVal F h i ≤ dpVal F h (lastIndex F h)) ∧
+    (∀ c, IsRChain F c → c.length ≤ j + 1 → areaL F c 0 ≤ dpVal F h (lastIndex F h)) ∧
+    IsRChain F (backtrack (lastIndex F h) ch) ∧ (backtrack (lastIndex F h) ch).length = j + 1 ∧
+    areaL F (backtrack (lastIndex F h) ch) 0 = dpVal F h (lastIndex F h) := by
+  have hnn : ∀ i, i < F.length → 0 ≤ h.getD i 0 := by
+    intro i hi
+    have := inv.ub i hi [] (by simp) (by simp) (by simp)
+    simpa [areaL] using this
+  have hvn : ∀ i, i < F.length → 0 ≤ dpVal F h i := by
+    intro i hi
+    have := hF.np hi
+    have h2 := mul_nonneg_of_nonpos_of_nonpos this.1 this.2
+    have := hnn i hi
+    unfold dpVal; omega
+  obtain ⟨hl, hmax⟩ := lastIndex_spec F h inv.hlen hn hvn
+  refine ⟨hl, hmax, ?_, ?_, ?_, ?_⟩
+  · intro c hc hlen
+    match c, hc, hlen with
+    | [], _, _ => simpa [areaL] using hvn _ hl
+    | m :: rest, hc, hlen =>
+      have hpw := List.pairwise_cons.mp hc.1
+      have hm : m < F.length := hc.2 m (by simp)
+      have h1 := inv.ub m hm rest (by simpa using hlen) hpw.2 hpw.1
+      have h2 := hmax m hm
+      simp only [areaL]
+      unfold dpVal at h2 ⊢
+      have e : (- fy F m) * (0 - fx F m) = fx F m * fy F m := by ring
+      omega
+  · have ⟨h1, h2⟩ := inv.btc _ hl
+    exact ⟨h1, fun m hm => by have := h2 m hm; omega⟩
+  · rw [backtrack_length, inv.chlen]
+  · rw [inv.bt _ hl]; unfold dpVal; ring
+
+/-! ### eraseDups -/
+
+theorem eraseDups_props : ∀ (n : Nat) (l : List Nat), l.length ≤ n → l.eraseDups.Nodup ∧ l.eraseDups.Sublist l
+  | _, [], _ => by simp
+  | 0, _ :: _, h => by simp at h
+  | n + 1, a :: as, h => by
+    rw [List.eraseDups_cons]
+    have hf : (as.filter fun b => !b == a).length ≤ n :=
+      Nat.le_trans (List.length_filter_le _ _) (by simpa using h)
+    obtain ⟨h1, h2⟩ := eraseDups_props n _ hf
+    refine ⟨List.nodup_cons.mpr ⟨?_, h1⟩, List.Sublist.cons_cons _ (h2.trans List.filter_sublist)⟩
+    rw [List.mem_eraseDups, List.mem_filter]
+    simp
+
+theorem nodup_eraseDups (l : List Nat) : l.eraseDups.Nodup := (eraseDups_props l.length l (Nat.le_refl _)).1
+theorem eraseDups_sublist (l : List Nat) : l.eraseDups.Sublist l := (eraseDups_props l.length l (Nat.le_refl _)).2
+
+/-! ### fillUp -/
+
+theorem fillUp_spec (n k : Nat) (hkn : k ≤ n) (sel : List Nat) (hnd : sel.Nodup) (hlt : ∀ m ∈ sel, m < n)
+    (hlen : sel.length ≤ k) :
+    (fillUp n k sel).Nodup ∧ (∀ m ∈ fillUp n k sel, m < n) ∧ (fillUp n k sel).length = k ∧
+    ∀ m ∈ sel, m ∈ fillUp n k sel := by
+  have key : ∀ t, t ≤ n →
+      let r := (List.range t).foldl (fun sel i => if sel.length < k && !sel.contains i then sel ++ [i] else sel) sel
+      r.Nodup ∧ (∀ m ∈ r, m < n) ∧ r.length ≤ k ∧ (∀ m ∈ sel, m ∈ r) ∧ (r.length = k ∨ ∀ i, i < t → i ∈ r) := by
+    intro t
+    induction t with
+    | zero =>
+      intro _
+      simp only [List.range_zero, List.foldl_nil]
+      exact ⟨hnd, hlt, hlen, fun m hm => hm, Or.inr (fun i hi => absurd hi (by omega))⟩
+    | succ t ih =>
+      intro ht
+      have ih := ih (by omega)
+      simp only [List.range_succ, List.foldl_append, List.foldl_cons, List.foldl_nil] at ih ⊢
+      generalize (List.range t).foldl
+        (fun sel i => if sel.length < k && !sel.contains i then sel ++ [i] else sel) sel = r at ih ⊢
+      obtain ⟨i1, i2, i3, i4, i5⟩ := ih
+      split
+      · rename_i hc
+        simp only [Bool.and_eq_true, decide_eq_true_eq, Bool.not_eq_true', List.contains_eq_mem,
+          decide_eq_false_iff_not] at hc
+        refine ⟨?_, ?_, ?_, ?_, ?_⟩
+        · exact List.nodup_append.mpr ⟨i1, by simp, by
+            intro a ha b hb; simp at hb; subst hb; intro e; subst e; exact hc.2 ha⟩
+        · intro m hm
+          rcases List.mem_append.mp hm with hm | hm
+          · exact i2 m hm
+          · simp at hm; omega
+        · simp; omega
+        · intro m hm; exact List.mem_append_left _ (i4 m hm)
+        · rcases i5 with i5 | i5
+          · omega
+          · right
+            intro i hi
+            rcases Nat.lt_succ_iff_lt_or_eq.mp hi with hi | rfl
+            · exact List.mem_append_left _ (i5 i hi)
+            · simp
+      · rename_i hc
+        simp only [Bool.and_eq_true, decide_eq_true_eq, Bool.not_eq_true', List.contains_eq_mem,
+          decide_eq_false_iff_not, not_and, Decidable.not_not] at hc
+        refine ⟨i1, i2, i3, i4, ?_⟩
+        rcases i5 with i5 | i5
+        · exact Or.inl i5
+        · by_cases hl : r.length < k
+          · right
+            intro i hi
+            rcases Nat.lt_succ_iff_lt_or_eq.mp hi with hi | rfl
+            · exact i5 i hi
+            · exact hc hl
+          · left; omega
+  obtain ⟨h1, h2, h3, h4, h5⟩ := key n (Nat.le_refl _)
+  refine ⟨h1, h2, ?_, h4⟩
+  rcases h5 with h5 | h5
+  · exact h5
+  · have : (List.range n).length ≤ (fillUp n k sel).length :=
+      List.Nodup.length_le_of_subset List.nodup_range (fun i hi => h5 i (List.mem_range.mp hi))
+    simp at this
+    have h3' : (fillUp n k sel).length ≤ k := h3
+    omega
 
 end SharkVerif.SSP
